@@ -218,13 +218,13 @@ def _stub_init_from_template(interp, args, kwargs):
 contract(
     R + "_open_file_link", props=["C17"], args={"cfg": CFG_FILE, "zo_path": PATH, "link": T.str()}, returns=T.int(),
     stubs={"zorg.service.templates:init_from_template": _stub_init_from_template},
-    # The anchored form [[p#a]] is NOT under contract: the engine's model of `str.split('#')` followed by `[:-2]` refuted the real code
-    # spuriously on `[[K#]]` (empty anchor; replayed natively - the real code answers `EDIT .../K.zo`, `SEARCH LID::` as the clause
-    # demands).  An engine imprecision, not a defect: the clause was withdrawn rather than narrowed, the bounded tier decides anchors.
-    requires={"a-page-link-without-anchor": "link.startswith('[[') and link.endswith(']]') and len(link) >= 5 and '#' not in link",
+    requires={"a-page-link-with-at-most-one-anchor": "link.startswith('[[') and link.endswith(']]') and len(link) >= 5 and '#' not in link[link.find('#') + 1:]",
               "no-binary-extensions-configured (text pages only)": "len(cfg.binary_exts) == 0"},
     ensures={
         "[[p]]: EDIT page p under the notes directory, nothing else":
-            "result == 0 and printed() == ['EDIT ' + str(page_path(cfg.zettel_dir, Path(link[2:len(link) - 2])))]",
+            "implies('#' not in link, result == 0 and printed() == ['EDIT ' + str(page_path(cfg.zettel_dir, Path(link[2:len(link) - 2])))])",
+        "[[p#a]]: EDIT page p under the notes directory, then SEARCH anchor a":
+            "implies('#' in link, result == 0 and printed() == ['EDIT ' + str(page_path(cfg.zettel_dir, Path(link[2:link.find('#')]))), "
+            "'SEARCH LID::' + link[link.find('#') + 1:len(link) - 2]])",
     },
 )
